@@ -46,9 +46,10 @@ func genC10(t *rapid.T) C10Case {
 	u := UniverseFor(t, tree, false)
 	u.Stateless = drawStateless(t)
 	operatorLikeNames(t, tree, u)
-	// sometimes the integer constant is registered with a raw Go type (int, int32): the engine
-	// does not normalise ConstantMap values, so built-in operators reject it at run time - and
-	// must reject it at compile time too. A sentinel value keeps it recognisable in Dump output.
+	// sometimes the integer constant is registered with a raw Go type (int, int32). What an operator
+	// makes of such a value is not modelled here; the point is that the compile-time call of a folded
+	// operator must see what the run-time call would see, so for these cases the engine itself,
+	// unoptimized, is the oracle for every folded place (checkC10, rawConsts).
 	if rapid.IntRange(0, 3).Draw(t, "rawconst") == 0 {
 		for i := range u.Consts {
 			if _, isInt := u.Consts[i].Val.X.(int64); isInt {
@@ -147,9 +148,67 @@ func foldable(n *m.Node, stateless map[string]bool) (interface{}, bool) {
 	return v, err == nil
 }
 
+// engineFoldable is foldable() with the unoptimized engine in the place of the operator model: the
+// tree is rewritten bottom-up - an and/or with an operand that is variable-free and evaluates to the
+// absorbing value becomes that value, an if with a variable-free condition becomes the chosen branch
+// - and what remains must be variable-free and evaluate.
+func engineFoldable(n *m.Node, engineSays func(*m.Node) (interface{}, bool)) (interface{}, bool) {
+	var rewrite func(n *m.Node) *m.Node
+	rewrite = func(n *m.Node) *m.Node {
+		if n.IsLeaf() {
+			return n
+		}
+		c := &m.Node{Kind: n.Kind, Name: n.Name, Val: n.Val}
+		for _, k := range n.Kids {
+			c.Kids = append(c.Kids, rewrite(k))
+		}
+		switch {
+		case c.Kind == m.KIf:
+			if len(c.Kids[0].VarNames()) == 0 {
+				if v, ok := engineSays(c.Kids[0]); ok {
+					if b, isBool := v.(bool); isBool {
+						if b {
+							return c.Kids[1]
+						}
+						return c.Kids[2]
+					}
+				}
+			}
+		case c.Kind == m.KOp && (m.IsAnd(c.Name) || m.IsOr(c.Name)):
+			for _, k := range c.Kids {
+				if len(k.VarNames()) == 0 {
+					if v, ok := engineSays(k); ok {
+						if b, isBool := v.(bool); isBool && b == m.IsOr(c.Name) {
+							return m.Const(b)
+						}
+					}
+				}
+			}
+		}
+		return c
+	}
+	t := rewrite(n)
+	if len(t.VarNames()) != 0 {
+		return nil, false
+	}
+	return engineSays(t)
+}
+
 // foldingSound walks the source tree and the tree dumped with only
 // ConstantFolding enabled in parallel.
-func foldingSound(src, dump *m.Node, stateless map[string]bool) string {
+func foldingSound(src, dump *m.Node, stateless map[string]bool, engineSays ...func(*m.Node) (interface{}, bool)) string {
+	if dump.Kind == m.KConst && src.Kind != m.KConst && len(engineSays) > 0 {
+		// raw-typed constants in play: the folded value must be what the unoptimized engine computes,
+		// or what an operand of an and/or that folds to the absorbing value decides
+		v, ok := engineFoldable(src, engineSays[0])
+		if !ok {
+			return fmt.Sprintf("%s was folded to %s, but evaluating it (unoptimized) fails", m.Render(src), m.RenderVal(dump.Val))
+		}
+		if !m.EqualVal(v, dump.Val) && fmt.Sprintf("%T|%v", v, v) != fmt.Sprintf("%T|%v", dump.Val, dump.Val) {
+			return fmt.Sprintf("%s was folded to %s, evaluated (unoptimized) it gives %v (%T)", m.Render(src), m.RenderVal(dump.Val), v, v)
+		}
+		return ""
+	}
 	if dump.Kind == m.KConst && src.Kind != m.KConst {
 		v, ok := foldable(src, stateless)
 		if !ok {
@@ -167,7 +226,7 @@ func foldingSound(src, dump *m.Node, stateless map[string]bool) string {
 		return fmt.Sprintf("constant %s became %s", m.RenderVal(src.Val), m.RenderVal(dump.Val))
 	}
 	for i := range src.Kids {
-		if why := foldingSound(src.Kids[i], dump.Kids[i], stateless); why != "" {
+		if why := foldingSound(src.Kids[i], dump.Kids[i], stateless, engineSays...); why != "" {
 			return why
 		}
 	}
@@ -189,6 +248,23 @@ func checkC10(c C10Case, r *Rec) *Violation {
 	})
 	ref := &m.Env{Vars: u.Bound(), Fail: u.Fail(), Custom: customModel()}
 	rv, rerr := ref.Eval(c.Tree)
+	rawConsts := false
+	for _, kc := range u.Consts {
+		switch kc.Val.X.(type) {
+		case int, int32:
+			rawConsts = true
+		}
+	}
+	// the unoptimized engine as operator oracle (raw-constant cases only)
+	engineSays := func(sub *m.Node) (interface{}, bool) {
+		cc0, _ := NewConfig(u, &Log{}, Build{Mask: 0, Pure: true})
+		e0, co := SafeCompile(cc0, m.Render(wrapRoot(sub.Clone())))
+		if co.Panic != nil || co.Err != nil {
+			return nil, false
+		}
+		o := Safe(func() (eval.Value, error) { return e0.Eval(NewFetcher(u, cc0, &Log{}).Ctx()) })
+		return o.Val, o.Err == nil && o.Panic == nil
+	}
 
 	for mask := 0; mask < 16; mask++ {
 		if mask == int(hash64(src)%16) {
@@ -221,6 +297,15 @@ func checkC10(c C10Case, r *Rec) *Violation {
 		}
 		restoreRawConstants(dt, u)
 		// (v) folding soundness (only ConstantFolding enabled: the structure is otherwise unchanged)
+		if mask == MaskFold && rawConsts {
+			if why := foldingSound(c.Tree, dt, stateless, engineSays); why != "" {
+				return Violf("C10: unsound folding: %s\n%s", why, where())
+			}
+		}
+		if rawConsts {
+			r.Class("raw-typed-constant")
+			continue // (no model of what operators make of raw-typed values: the remaining oracles do not apply)
+		}
 		if mask == MaskFold {
 			if why := foldingSound(c.Tree, dt, stateless); why != "" {
 				return Violf("C10: unsound folding: %s\n%s", why, where())
